@@ -1,0 +1,120 @@
+//go:build verif
+
+package proto
+
+// Contracts for govc (see /verif/DESIGN.md). Comment-only: no declarations.
+
+// ---------------------------------------------------------------- representation invariant
+//
+// pa_idx:  indices is exactly { nodes[k].Ref -> indexOffset + k }
+// pa_par:  parents are NONE or strictly earlier live nodes
+// pa_best: best-child / best-descendant links are NONE or live nodes
+// pa_bs:   every root in blockSlots has its first slot node in indices
+// pa_ok:   all of the above, maps allocated, index arithmetic does not wrap
+
+//@ sort Nodes = []ProtoNode
+//@ sort Indices = map[NodeRef]NodeIndex
+//@ sort BlockSlots = map[Root]Slot
+//@ sort NodeRefT = NodeRef
+//@ sort RootT = Root
+
+//@ define pa_idx(nodes Nodes, indices Indices, off int) bool = (forall r NodeRefT :: {indices[r]} {has(indices, r)} has(indices, r) ==> off <= indices[r] && indices[r] < off + len(nodes) && nodes[indices[r] - off].Ref == r) && (forall k :: {indices[nodes[k].Ref]} {has(indices, nodes[k].Ref)} 0 <= k && k < len(nodes) ==> has(indices, nodes[k].Ref) && indices[nodes[k].Ref] == off + k)
+//@ define pa_par(nodes Nodes, off int) bool = forall k :: {nodes[k]} 0 <= k && k < len(nodes) ==> (nodes[k].ForkchoiceParent == NONE || (off <= nodes[k].ForkchoiceParent && nodes[k].ForkchoiceParent < off + k)) && (nodes[k].TransitionParent == NONE || (off <= nodes[k].TransitionParent && nodes[k].TransitionParent < off + k))
+//@ define pa_best(nodes Nodes, off int) bool = forall k :: {nodes[k]} 0 <= k && k < len(nodes) ==> (nodes[k].BestChild == NONE || (off <= nodes[k].BestChild && nodes[k].BestChild < off + len(nodes))) && (nodes[k].BestDescendant == NONE || (off <= nodes[k].BestDescendant && nodes[k].BestDescendant < off + len(nodes)))
+//@ define pa_bs(blockSlots BlockSlots, indices Indices) bool = !isnil(blockSlots) && (forall r RootT :: {blockSlots[r]} has(blockSlots, r) ==> has(indices, NodeRef(blockSlots[r], r)))
+//@ define pa_ok(nodes Nodes, indices Indices, off int) bool = pa_idx(nodes, indices, off) && pa_par(nodes, off) && pa_best(nodes, off) && !isnil(indices) && off + len(nodes) < 9223372036854775808
+
+// pa_same: same nodes up to the best-child / best-descendant links
+//@ define pa_same(a Nodes, b Nodes) bool = len(a) == len(b) && (forall k :: {b[k]} 0 <= k && k < len(a) ==> a[k].Ref == b[k].Ref && a[k].TransitionParent == b[k].TransitionParent && a[k].ForkchoiceParent == b[k].ForkchoiceParent && a[k].ParentRoot == b[k].ParentRoot && a[k].JustifiedEpoch == b[k].JustifiedEpoch && a[k].FinalizedEpoch == b[k].FinalizedEpoch && a[k].Weight == b[k].Weight)
+// pa_samew: same nodes up to links and weights
+//@ define pa_samew(a Nodes, b Nodes) bool = len(a) == len(b) && (forall k :: {b[k]} 0 <= k && k < len(a) ==> a[k].Ref == b[k].Ref && a[k].TransitionParent == b[k].TransitionParent && a[k].ForkchoiceParent == b[k].ForkchoiceParent && a[k].ParentRoot == b[k].ParentRoot && a[k].JustifiedEpoch == b[k].JustifiedEpoch && a[k].FinalizedEpoch == b[k].FinalizedEpoch)
+// pa_prefix: a is a prefix of b
+//@ define pa_prefix(a Nodes, b Nodes) bool = len(a) <= len(b) && (forall k :: {b[k]} 0 <= k && k < len(a) ==> a[k] == b[k])
+
+// viable(node): the specification's filter_block_tree test against the array's checkpoints
+//@ define viable(nj int, nf int, j int, f int) bool = (nj == j || j == 0) && (nf == f || f == 0)
+
+// ---------------------------------------------------------------- small helpers
+
+//@ func NewProtoArray(parent, blockRoot, blockSlot, justifiedEpoch, finalizedEpoch, sink) pr
+//@   property C09 C10 C11
+//@   ensures pr != nil && pa_ok(pr.nodes, pr.indices, pr.indexOffset) && pa_bs(pr.blockSlots, pr.indices) && pr.updatedConnections
+//@   ensures len(pr.nodes) == 1 && pr.indexOffset == 0 && pr.nodes[0].Ref == NodeRef(blockSlot, blockRoot) && pr.nodes[0].ParentRoot == parent
+//@   ensures has(pr.blockSlots, blockRoot) && pr.blockSlots[blockRoot] == blockSlot
+//@   ensures pr.justifiedEpoch == justifiedEpoch && pr.finalizedEpoch == finalizedEpoch
+
+//@ func (pr *ProtoArray) getNode(index) (node, err)
+//@   property C09 C10 C11
+//@   opt inline=always
+//@   requires pr != nil
+//@   ensures found: err == nil <==> (index >= pr.indexOffset && index - pr.indexOffset < len(pr.nodes))
+
+//@ func (pr *ProtoArray) isNodeViableForHead(node) ok
+//@   property C09
+//@   opt inline=always
+//@   requires pr != nil && node != nil
+//@   ensures ok <==> viable(node.JustifiedEpoch, node.FinalizedEpoch, pr.justifiedEpoch, pr.finalizedEpoch)
+
+//@ func (pr *ProtoArray) GetSlot(blockRoot) (slot, ok)
+//@   property C11
+//@   requires pr != nil
+//@   ensures ok <==> has(pr.blockSlots, blockRoot)
+//@   ensures ok ==> slot == pr.blockSlots[blockRoot]
+
+// ---------------------------------------------------------------- best child / best descendant
+
+// Decision table of the LMD-GHOST child comparison, from the property statement:
+// among children that lead to a viable head the heavier subtree wins, ties go to
+// the greater root.  (When neither candidate leads to a viable head the outcome
+// is not pinned down here: see DESIGN.md, finding notes.)
+//@ func (pr *ProtoArray) maybeUpdateBestChildAndDescendant(parentIndex, childIndex) err
+//@   property C09
+//@   requires pr != nil && pa_ok(pr.nodes, pr.indices, pr.indexOffset)
+//@   assigns pr.nodes
+//@   ensures inv: pa_ok(pr.nodes, pr.indices, pr.indexOffset) && pa_same(old(pr.nodes), pr.nodes)
+//@   ensures others: forall k :: 0 <= k && k < len(pr.nodes) && k != parentIndex - pr.indexOffset ==> pr.nodes[k] == old(pr.nodes[k])
+//@   ensures valid: (pr.indexOffset <= parentIndex && parentIndex < pr.indexOffset + len(pr.nodes) && pr.indexOffset <= childIndex && childIndex < pr.indexOffset + len(pr.nodes)) ==> err == nil
+//@   ensures linked: err == nil && (old(pr.nodes[parentIndex - pr.indexOffset].BestChild) == NONE <==> old(pr.nodes[parentIndex - pr.indexOffset].BestDescendant) == NONE) ==> (let p := pr.nodes[parentIndex - pr.indexOffset] in (p.BestChild == NONE <==> p.BestDescendant == NONE))
+//@   ensures child_desc: err == nil ==> (let p := pr.nodes[parentIndex - pr.indexOffset] in let c := pr.nodes[childIndex - pr.indexOffset] in (p.BestChild == childIndex && parentIndex != childIndex ==> p.BestDescendant == ite(c.BestDescendant == NONE, childIndex, c.BestDescendant)))
+//@   ensures first_viable: err == nil && parentIndex != childIndex ==> (let p0 := old(pr.nodes[parentIndex - pr.indexOffset]) in let c := old(pr.nodes[childIndex - pr.indexOffset]) in let cd := ite(c.BestDescendant == NONE, childIndex, c.BestDescendant) in let cv := viable(old(pr.nodes[cd - pr.indexOffset].JustifiedEpoch), old(pr.nodes[cd - pr.indexOffset].FinalizedEpoch), pr.justifiedEpoch, pr.finalizedEpoch) in (p0.BestChild == NONE ==> (pr.nodes[parentIndex - pr.indexOffset].BestChild == ite(cv, childIndex, NONE))))
+//@   ensures same_child: err == nil && parentIndex != childIndex ==> (let p0 := old(pr.nodes[parentIndex - pr.indexOffset]) in let c := old(pr.nodes[childIndex - pr.indexOffset]) in let cd := ite(c.BestDescendant == NONE, childIndex, c.BestDescendant) in let cv := viable(old(pr.nodes[cd - pr.indexOffset].JustifiedEpoch), old(pr.nodes[cd - pr.indexOffset].FinalizedEpoch), pr.justifiedEpoch, pr.finalizedEpoch) in (p0.BestChild == childIndex ==> (pr.nodes[parentIndex - pr.indexOffset].BestChild == ite(cv, childIndex, NONE))))
+
+//@ func (pr *ProtoArray) updateConnections() err
+//@   property C09
+//@   requires pr != nil && pa_ok(pr.nodes, pr.indices, pr.indexOffset)
+//@   assigns pr.nodes, pr.updatedConnections
+//@   ensures inv: pa_ok(pr.nodes, pr.indices, pr.indexOffset) && pa_same(old(pr.nodes), pr.nodes)
+//@   ensures done: err == nil ==> pr.updatedConnections
+//@   loop 1
+//@     invariant -1 <= i && i < len(pr.nodes)
+//@     invariant pa_ok(pr.nodes, pr.indices, pr.indexOffset) && pa_same(old(pr.nodes), pr.nodes)
+//@     decreases i + 1
+
+//@ func (pr *ProtoArray) ApplyScoreChanges(deltas, justifiedEpoch, finalizedEpoch) err
+//@   property C09
+//@   requires pr != nil && pa_ok(pr.nodes, pr.indices, pr.indexOffset)
+//@   assigns pr.nodes, pr.justifiedEpoch, pr.finalizedEpoch, pr.updatedConnections, deltas
+//@   ensures inv: pa_ok(pr.nodes, pr.indices, pr.indexOffset) && pa_samew(old(pr.nodes), pr.nodes)
+//@   ensures mismatch: len(deltas) != old(len(pr.nodes)) ==> err != nil && unchanged(pr.nodes) && unchanged(pr.justifiedEpoch) && unchanged(pr.finalizedEpoch)
+//@   ensures done: err == nil ==> pr.updatedConnections && pr.justifiedEpoch == justifiedEpoch && pr.finalizedEpoch == finalizedEpoch
+//@   loop 1
+//@     invariant -1 <= i && i < len(pr.nodes) && len(deltas) == len(pr.nodes)
+//@     invariant pa_ok(pr.nodes, pr.indices, pr.indexOffset) && pa_samew(old(pr.nodes), pr.nodes)
+//@     decreases i + 1
+//@   loop 2
+//@     invariant -1 <= i && i < len(pr.nodes)
+//@     invariant pa_ok(pr.nodes, pr.indices, pr.indexOffset) && pa_samew(old(pr.nodes), pr.nodes)
+//@     decreases i + 1
+
+// ---------------------------------------------------------------- head
+
+// head(anchor): the best descendant of the anchor node, the anchor itself when it has none.
+//@ func (pr *ProtoArray) FindHead(anchorRoot, anchorSlot) (ref, err)
+//@   property C09 C11
+//@   requires pr != nil && pa_ok(pr.nodes, pr.indices, pr.indexOffset)
+//@   assigns pr.nodes, pr.updatedConnections
+//@   ensures inv: pa_ok(pr.nodes, pr.indices, pr.indexOffset) && pa_same(old(pr.nodes), pr.nodes)
+//@   ensures unknown: !has(pr.indices, NodeRef(anchorSlot, anchorRoot)) ==> err != nil
+//@   ensures known: err == nil ==> has(pr.indices, ref)
+//@   ensures head: err == nil ==> (let ai := pr.indices[NodeRef(anchorSlot, anchorRoot)] in let bd := pr.nodes[ai - pr.indexOffset].BestDescendant in let h := pr.nodes[ite(bd == NONE, ai, bd) - pr.indexOffset] in ref == h.Ref && viable(h.JustifiedEpoch, h.FinalizedEpoch, pr.justifiedEpoch, pr.finalizedEpoch))
+//@   ensures nonviable: old(pr.updatedConnections) && has(pr.indices, NodeRef(anchorSlot, anchorRoot)) ==> (let ai := pr.indices[NodeRef(anchorSlot, anchorRoot)] in let bd := pr.nodes[ai - pr.indexOffset].BestDescendant in let h := pr.nodes[ite(bd == NONE, ai, bd) - pr.indexOffset] in (err == nil <==> viable(h.JustifiedEpoch, h.FinalizedEpoch, pr.justifiedEpoch, pr.finalizedEpoch)))
